@@ -1,4 +1,5 @@
 """C09 helpers: loop generator, real OpenMP transformation pipeline, gfortran -fopenmp oracle."""
+import copy
 import os
 import re
 import shutil
@@ -296,9 +297,11 @@ class Gen:
 
 # ---------------------------------------------------------------------------------------------
 # the real code
-def transform(src, mode, force=False):
+def transform(src, mode, force=False, user_opts=None):
     """Apply the real OpenMP transformation(s) to the last top-level loop of the program.
-    Returns dict(status, message, text, private, firstprivate, loop_sexp)."""
+    Returns dict(status, message, text, private, firstprivate, loop_sexp).
+    `user_opts`: the CALLER's options dict (the same object is handed to every transformation, as an
+    optimisation script does); res["opts_mutated"] tells whether a call changed it."""
     from psyclone.psyir.backend.fortran import FortranWriter
     from psyclone.psyir.nodes import Loop, Routine
     from psyclone.psyir.transformations import TransformationError
@@ -312,13 +315,28 @@ def transform(src, mode, force=False):
         res["loop_sexp"] = minif.export_stmt(loop, names())
     except minif.Unsupported as e:
         raise common.Infra("exporter cannot handle generated loop: " + str(e))
-    opts = {"force": True} if force else None
+    opts = {"force": True} if force else user_opts
+    before = copy.deepcopy(user_opts) if (user_opts is not None and not force) else None
+    try:
+        return _transform(psyir, loop, mode, opts, res)
+    finally:
+        if before is not None:
+            res["opts_before"], res["opts_after"] = before, copy.deepcopy(user_opts)
+            res["opts_mutated"] = before != user_opts
+
+
+def _transform(psyir, loop, mode, opts, res):
+    from psyclone.psyir.backend.fortran import FortranWriter
+    from psyclone.psyir.transformations import TransformationError
+    from psyclone.transformations import OMPLoopTrans, OMPParallelLoopTrans, OMPParallelTrans
+    from psyclone.errors import GenerationError
+    from psyclone.psyir.backend.visitor import VisitorError
     try:
         if mode == "paralleldo":
             OMPParallelLoopTrans(omp_schedule="runtime").apply(loop, opts)
         else:
             OMPLoopTrans(omp_schedule="runtime").apply(loop, opts)
-            OMPParallelTrans().apply(loop.parent.parent)
+            OMPParallelTrans().apply(loop.parent.parent, opts)
     except TransformationError as e:
         res["status"], res["message"] = "refused", str(e.value)
         return res
@@ -414,3 +432,76 @@ def serial_run(src):
         return st, (parse_out(out) if st == "ok" else out)
     finally:
         exe.close()
+
+
+# ---------------------------------------------------------------------------------------------
+# script-like histories: ONE options dict handed to a sequence of OpenMP transformations
+_CACHE = {}
+PRELUDE_STEPS = ["lfric_pdo", "lfric_do", "lfric_validate", "gocean_pdo", "gocean_do", "generic_pdo", "generic_do"]
+OPTS0 = [{"reprod": False}, {"sequential": False}, {"force": False}, {"reprod": False, "script_tag": "x"}, {"collapse": None}]
+
+
+def _invoke(api):
+    """fresh schedule of a small invoke; the algorithm file is parsed once per process"""
+    from psyclone.configuration import Config
+    from psyclone.parse.algorithm import parse
+    from psyclone.psyGen import PSyFactory
+    Config.get().api = api
+    if api not in _CACHE:
+        rel = ("dynamo0p3/1_single_invoke_w3.f90" if api == "dynamo0.3" else "gocean1p0/single_invoke.f90")
+        _, _CACHE[api] = parse(os.path.join(common.REPO, "src", "psyclone", "tests", "test_files", rel), api=api)
+    return PSyFactory(api, distributed_memory=False).create(_CACHE[api]).invokes.invoke_list[0].schedule
+
+
+def prelude_step(name, opts):
+    """Run one transformation of another API (or a generic one on a trivial loop) with the caller's dict.
+    -> "ok" / "refused" / "error:<type>" """
+    from psyclone.configuration import Config
+    from psyclone.psyir.nodes import Loop
+    from psyclone.psyir.transformations import TransformationError
+    from psyclone import transformations as T
+    cfg = Config.get()
+    old_api = cfg._api
+    try:
+        if name.startswith("lfric"):
+            loop = _invoke("dynamo0.3").walk(Loop)[0]
+            if name == "lfric_pdo":
+                T.DynamoOMPParallelLoopTrans().apply(loop, opts)
+            elif name == "lfric_validate":
+                T.DynamoOMPParallelLoopTrans().validate(loop, opts)
+            else:
+                T.Dynamo0p3OMPLoopTrans().apply(loop, opts)
+                T.OMPParallelTrans().apply(loop.parent.parent, opts)
+        elif name.startswith("gocean"):
+            loop = _invoke("gocean1.0").walk(Loop)[0]
+            if name == "gocean_pdo":
+                T.GOceanOMPParallelLoopTrans().apply(loop, opts)
+            else:
+                T.GOceanOMPLoopTrans().apply(loop, opts)
+                T.OMPParallelTrans().apply(loop.parent.parent, opts)
+        else:
+            _, routine = minif.parse_program("program q\n integer :: i\n integer, dimension(9) :: a, b\n"
+                                             " do i = 1, 9\n  a(i) = b(i)\n enddo\nend program q\n")
+            loop = routine.walk(Loop)[0]
+            if name == "generic_pdo":
+                T.OMPParallelLoopTrans().apply(loop, opts)
+            else:
+                T.OMPLoopTrans().apply(loop, opts)
+                T.OMPParallelTrans().apply(loop.parent.parent, opts)
+        return "ok"
+    except TransformationError:
+        return "refused"
+    except Exception as e:      # noqa: BLE001 - recorded, never fatal for the history
+        return "error:" + type(e).__name__
+    finally:
+        cfg._api = old_api
+
+
+def run_prelude(steps, opts):
+    """-> list of (step, outcome, dict-before, dict-after) ; the dict object `opts` is shared"""
+    log = []
+    for st in steps:
+        before = copy.deepcopy(opts)
+        out = prelude_step(st, opts)
+        log.append({"step": st, "outcome": out, "before": before, "after": copy.deepcopy(opts), "mutated": before != opts})
+    return log
